@@ -145,6 +145,9 @@ class ScanAnalysis:
         return mk_cmp("<", idx, M)
 
     # ------------------------------------------------------------------ conditions
+    def _is_selfname(self, e, env) -> bool:
+        return ast.unparse(e) == "self.name" or (isinstance(e, ast.Name) and env.get(e.id) == ("selfname",))
+
     def cond(self, e, env):
         if isinstance(e, ast.BoolOp):
             out = TRUE_DNF if isinstance(e.op, ast.And) else FALSE_DNF
@@ -160,22 +163,35 @@ class ScanAnalysis:
             # membership marks:  self.name in X.indicators / X.sub_indicators
             if isinstance(op, (ast.In, ast.NotIn)) and isinstance(r, ast.Attribute) and r.attr in ("indicators", "sub_indicators"):
                 idx = self.elem(r.value, env)
-                if idx is not None and ast.unparse(l) == "self.name":
+                if idx is not None and self._is_selfname(l, env):
                     self.marks.append((e, "membership"))
                     d = atom_dnf(self.done(idx))
                     return d if isinstance(op, ast.In) else dnf_not(d)
             # membership in a store picked by a helper:  self.name in self._store(X)
-            if isinstance(op, (ast.In, ast.NotIn)) and isinstance(r, ast.Call) and len(r.args) == 1 and ast.unparse(l) == "self.name":
+            if isinstance(op, (ast.In, ast.NotIn)) and isinstance(r, ast.Call) and len(r.args) == 1 and self._is_selfname(l, env):
                 idx = self.elem(r.args[0], env)
                 sel = self._store_selector(r)
                 if idx is not None and sel is not None:
                     self.marks.append((e, "membership" if sel == "self._sub_indicator" else f"store selected by `{sel}` (readings are stored by self._sub_indicator)"))
                     d = atom_dnf(self.done(idx))
                     return d if isinstance(op, ast.In) else dnf_not(d)
+            # membership in a store picked by a conditional:  self.name in (X.sub_indicators if <flag> else X.indicators)
+            if isinstance(op, (ast.In, ast.NotIn)) and isinstance(r, ast.IfExp) and self._is_selfname(l, env):
+                from .structure import canon_ifexp
+
+                a, b = r.body, r.orelse
+                if isinstance(a, ast.Attribute) and isinstance(b, ast.Attribute) and {a.attr, b.attr} == {"indicators", "sub_indicators"}:
+                    ia, ib = self.elem(a.value, env), self.elem(b.value, env)
+                    if ia is not None and ib is not None and ia == ib:
+                        t, ta, tb = canon_ifexp(r)
+                        sel = t if ta.endswith(".sub_indicators") else f"not {t}"
+                        self.marks.append((e, "membership" if sel == "self._sub_indicator" else f"store selected by `{sel}` (readings are stored by self._sub_indicator)"))
+                        d = atom_dnf(self.done(ia))
+                        return d if isinstance(op, ast.In) else dnf_not(d)
             # tag marks:  self.name == X.tag
             if isinstance(op, (ast.Eq, ast.NotEq)):
                 for a, b in ((l, r), (r, l)):
-                    if isinstance(a, ast.Attribute) and a.attr == "tag" and ast.unparse(b) == "self.name":
+                    if isinstance(a, ast.Attribute) and a.attr == "tag" and self._is_selfname(b, env):
                         idx = self.elem(a.value, env)
                         if idx is not None:
                             self.marks.append((e, "tag"))
@@ -340,6 +356,12 @@ class ScanAnalysis:
         if isinstance(v, ast.Lambda):
             env[name] = ("pred", v, dict(env))
             return
+        if ast.unparse(v) == "self.name":
+            env[name] = ("selfname",)
+            return
+        if isinstance(v, ast.Call) and isinstance(v.func, ast.Name) and v.func.id == "range":
+            env[name] = ("range", v, dict(env))
+            return
         try:
             env[name] = ("lin", self.lin(v, env))
         except Unknown:
@@ -425,18 +447,21 @@ class ScanAnalysis:
 
     def loop(self, st: ast.For, env, facts):
         it = st.iter
+        renv = env
+        if isinstance(it, ast.Name) and isinstance(env.get(it.id), tuple) and env[it.id][0] == "range":
+            _, it, renv = env[it.id]
         if not (isinstance(st.target, ast.Name) and isinstance(it, ast.Call) and isinstance(it.func, ast.Name) and it.func.id == "range" and not st.orelse):
             raise Unknown(f"loop not modelled: for {ast.unparse(st.target)} in {ast.unparse(it)[:50]}")
         args = it.args
         if len(args) == 1:
-            a, b, step = ZERO, self.lin(args[0], env), 1
+            a, b, step = ZERO, self.lin(args[0], renv), 1
         elif len(args) == 2:
-            a, b, step = self.lin(args[0], env), self.lin(args[1], env), 1
+            a, b, step = self.lin(args[0], renv), self.lin(args[1], renv), 1
         else:
-            s = self.lin(args[2], env)
+            s = self.lin(args[2], renv)
             if not s.is_const() or s.const_value() not in (1, -1):
                 raise Unknown("range step is not +-1")
-            a, b, step = self.lin(args[0], env), self.lin(args[1], env), int(s.const_value())
+            a, b, step = self.lin(args[0], renv), self.lin(args[1], renv), int(s.const_value())
         body = [x for x in st.body if not (isinstance(x, ast.Expr) and isinstance(x.value, ast.Constant))]
         pre_assigns = [x for x in body[:-1] if isinstance(x, ast.Assign)]
         if not body or len(pre_assigns) != len(body) - 1 or not isinstance(body[-1], ast.If) or body[-1].orelse or len(body[-1].body) != 1 or not isinstance(body[-1].body[0], ast.Return):
